@@ -401,6 +401,8 @@ pub fn spaces(tier: Tier) -> Vec<Space<'static>> {
         acc.nontrivial += 1;
         casts(v, &enc(v), acc)
     }));
+    let sd = crate::checks::scale::docs().clone();
+    sp.push(Space::new("scale (counts/lengths/offsets across 2^8, 2^16, 2^20)", sd.len() as u64, move |i, acc| crate::checks::scale::accessors(&sd[i as usize], acc)));
     if tier.thorough() {
         let d2k = univ::d2k();
         sp.push(Space::new("d2k", d2k.count(2), move |i, acc| check_doc(&d2k.nth(2, i), acc, false)));
